@@ -127,4 +127,37 @@ PROPS = {
                  "drain leaves the bytes beyond the new length untouched)",
                  "Linux io_uring provided-buffer selection and pipe reads (real kernel, no simulator)"],
     ),
+    "C18": dict(
+        driver="C18",
+        model="Model/Build.v",
+        run_fn="run_bcase18",
+        release_too=True,
+        theorems=["C18_build_all_or_nothing", "C18_build_outcome_function_of_answers", "C18_build_never_panics",
+                  "C18_params_honour_config", "C18_setters_honoured", "C18_build_checked_overflow_panics_witness"],
+        rule="configurations x refusal points, fully crossed, on the simulated kernel: configuration k from one splitmix64 "
+             "stream (VERIF_SEED, k): 8 fixed ones (default, everything set, kernel thread, maximum size, and four that "
+             "Linux rejects with EINVAL) then random lists of setter calls in random order (queue sizes from pools with "
+             "0, non powers of two, 32768/32769, 65536/65537, u32::MAX; clamp; kernel thread, cpu affinity, idle timeouts "
+             "up to Duration::MAX; single issuer; defer taskrun; disabled; attach to another ring; direct descriptor "
+             "tables of 0..2^15 slots; repeated calls); each is built under each of 26 kernel behaviours: no refusal, "
+             "io_uring_setup failing with 5 errnos, each of the 4 required feature bits missing, none/two missing/all 32 "
+             "bits set, a descriptor that cannot be mapped, mmap number 0/1/2 failing, madvise number 0/1/2 failing, "
+             "IORING_REGISTER_FILES2 failing with 2 errnos, another register opcode failing, 3 double refusals; a "
+             "returned ring is inspected and dropped; thorough adds 20 builds on the real kernel (EINVAL before the "
+             "descriptor exists, EMFILE/EINVAL from the file table registration after the mappings exist, an address "
+             "space limit that makes a mapping fail, successful builds and drops) checked by /proc/self/fd and "
+             "/proc/self/maps only; non-trivial = at least one setter or a refusal; distinct by the Coq case term",
+        assumptions=["the kernel's behaviour is an arbitrary answer to each question build asks (setup, three mmap, three "
+                     "madvise, one register); the theorems quantify over all of them, the harness drives the 26 listed ones",
+                     "munmap and close succeed on what mmap and io_uring_setup returned (their errors are ignored by the code)",
+                     "io_uring_setup leaves the flags word of the parameter block as it was passed in (the simulated "
+                     "kernel does; the theorems are stated for whatever flags are left there)",
+                     "C18_build_never_panics: built without overflow checks, or granted sizes with sq_off.array + 4*sq and "
+                     "cq_off.cqes + 16*cq below 2^32 (Linux caps the sizes at 32768 and 65536 entries)",
+                     "the ring's private fields are read through its Debug rendering"],
+        trusted=["simulated kernel harness/src/simk.rs (io_uring_setup parameter validation as in io_uring_create, memfd "
+                 "backed mappings, failure injection)",
+                 "a10 verif hooks A (src/verif.rs, src/io_uring/libc.rs): setup, register, mmap, munmap, madvise",
+                 "/proc/self/fd and /proc/self/maps as the account of descriptors and mappings"],
+    ),
 }
